@@ -723,7 +723,7 @@ func (in *instr) callExpr(c *astutil.Cursor, n *ast.CallExpr) {
 			case fn.Pkg().Path() == "runtime" && fn.Name() == "Gosched":
 				st.Rewrites["gosched"]++
 				in.used = true
-				n.Fun = sel("Yield")
+				n.Fun = sel("Gosched")
 			case fn.Pkg().Path() == "time" && fn.Name() == "Sleep":
 				st.Rewrites["sleep"]++
 				in.used = true
